@@ -68,6 +68,23 @@ def run_case(c, d):
                 out['roundtrip'][name] = us.modpath_to_modname(p)
             except Exception as e:   # noqa
                 out['roundtrip'][name] = 'EXC %s' % type(e).__name__
+            # the same with the interpreter's own search path holding the roots *and* every package directory on the way to the file
+            # (a script run from inside a package puts that directory first on sys.path): the name does not depend on it
+            inner, cur = [], os.path.dirname(p)
+            while os.path.abspath(cur) != roots[k] and len(cur) > len(roots[k]):
+                inner.append(cur)
+                cur = os.path.dirname(cur)
+            if inner:
+                saved = list(sys.path)
+                sys.path[:0] = inner + roots
+                try:
+                    alt = us.modpath_to_modname(p)
+                except Exception as e:   # noqa
+                    alt = 'EXC %s' % type(e).__name__
+                finally:
+                    sys.path[:] = saved
+                if alt != out['roundtrip'][name]:
+                    out['roundtrip'][name] = '%s (but %s with the package directories on sys.path)' % (out['roundtrip'][name], alt)
         out['pathfinder'][name] = pathfinder(roots, name)
     for (ri, rel) in c['walks']:
         pkg = os.path.join(roots[ri], rel)
